@@ -307,7 +307,13 @@ class Pipeline:
 
         def main():
             try:
-                cls.run(cfg, sig_stop=False, stop_evt=ev, prop_exit=n.get('prop_exit'), obey_exit=n.get('obey_exit'))
+                if n.get('in_handler'):     # started by a supervisor from inside an exception handler (e.g. a retry after some unrelated error)
+                    try:
+                        raise KeyError('unrelated error the caller is handling')
+                    except KeyError:
+                        cls.run(cfg, sig_stop=False, stop_evt=ev, prop_exit=n.get('prop_exit'), obey_exit=n.get('obey_exit'))
+                else:
+                    cls.run(cfg, sig_stop=False, stop_evt=ev, prop_exit=n.get('prop_exit'), obey_exit=n.get('obey_exit'))
                 self.ends[key] = {'how': 'returned', 'exc': None, 't': self.world.now}
             except simnet.SimKilled:
                 self.ends[key] = {'how': 'killed', 'exc': None, 't': self.world.now}
